@@ -18,3 +18,26 @@ func C16_readframe_cut() {
 	_, err = ws.ReadHeader(&vCutSrc{data: wire, cut: vChoose("hcut", len(wire)-n)})
 	vAssert(err != nil, "cut.readheader_fails")
 }
+
+// C16_readframe_large_cut: frames announcing more than 1 MiB take ws.ReadFrame's other path (no
+// pre-allocation of the announced size): the stream ends, or the transport fails, after 0, 1, 3
+// or 600 payload bytes (the end reported alone or together with the last bytes): an error.
+func C16_readframe_large_cut() {
+	L := []uint64{1<<20 + 1, 1<<20 + 600, 1 << 32, 1 << 62}[vChoose("len", 4)]
+	masked := vChoose("masked", 2) == 1
+	hdr := []byte{0x82, 127, byte(L >> 56), byte(L >> 48), byte(L >> 40), byte(L >> 32), byte(L >> 24), byte(L >> 16), byte(L >> 8), byte(L)}
+	if masked {
+		hdr[1] |= 0x80
+		hdr = append(hdr, vU8("k0"), vU8("k1"), vU8("k2"), vU8("k3"))
+	}
+	k := []int{0, 1, 3, 600}[vChoose("have", 4)]
+	body := make([]byte, k)
+	for i := 0; i < k && i < 3; i++ {
+		body[i] = vU8("p")
+	}
+	wire := append(hdr, body...)
+	src := &vCutSrc{data: wire, cut: len(wire), useErr: vChoose("kind", 2) == 1, one: k <= 3 && vChoose("chunk", 2) == 1, withData: vChoose("withdata", 2) == 1}
+	f, err := ws.ReadFrame(src)
+	vAssert(err != nil, "cut.large_readframe_fails")
+	_ = f
+}
